@@ -2,6 +2,7 @@
 //@use core ops_gen std
 //@spec ring
 //@typemap /<E>/ => 
+//@typemap /::<E, P>::/ => ::
 //@enum file=poly-commit/src/error.rs name=Error
 //@struct file=poly-commit/src/kzg10/data_structures.rs name=UniversalParams
 
@@ -47,3 +48,40 @@ impl KZG10 {
             proof { broadcast use ax_mul_comm, ax_mul_one; reveal_with_fuel(f_pow, 2); }
 //@end
 }
+// ======================= the scheme-level setup wrappers: which kind of universal parameters each scheme asks for =======================
+pub mod kzg10 { pub use super::KZG10; }
+// `.map_err(Into::into)` with Self::Error = Error: the identity on the error
+#[verifier::external_body] pub fn map_err_into(r: Result<UniversalParams, Error>) -> (o: Result<UniversalParams, Error>) ensures o == r { unimplemented!() }
+pub struct MarlinKZG10;
+impl MarlinKZG10 {
+//@fn id=marlin_pc.setup file=poly-commit/src/marlin/marlin_pc/mod.rs scope="impl<E, P> PolynomialCommitment<E::ScalarField, P> for MarlinKZG10<E, P>" name=setup props=C09,C17
+    fn setup(max_degree: usize, _num_vars: Option<usize>, rng: &mut Rng) -> (res: Result<UniversalParams, Error>)
+    requires
+        max_degree < usize::MAX - 1,
+    ensures
+        (res is Err) == (max_degree < 1),   // name=marlin_pc.setup.err_iff_degree_zero props=C09,C17
+        // KZG10 parameters in trapdoor form WITHOUT the G2 powers (Marlin enforces degree bounds in G1)
+        res is Ok ==> srs_wf(&res->Ok_0, max_degree as nat, false, draw(old(rng).id@, old(rng).pos@), draw(old(rng).id@, old(rng).pos@ + 1),
+                             draw(old(rng).id@, old(rng).pos@ + 2), draw(old(rng).id@, old(rng).pos@ + 3)),   // name=marlin_pc.setup.kzg10_parameters_in_trapdoor_form props=C09
+//@body
+//@rw 1 /(kzg10::KZG10::setup\(max_degree, \w+, rng\))\.map_err\(Into::into\)/ => map_err_into(\1)
+//@end
+}
+pub struct SonicKZG10;
+impl SonicKZG10 {
+//@fn id=sonic_pc.setup file=poly-commit/src/sonic_pc/mod.rs scope="impl<E, P> PolynomialCommitment<E::ScalarField, P> for SonicKZG10<E, P>" name=setup props=C09,C17,C04
+    fn setup(max_degree: usize, _nv: Option<usize>, rng: &mut Rng) -> (res: Result<UniversalParams, Error>)
+    requires
+        max_degree < usize::MAX - 1,
+        draw(old(rng).id@, old(rng).pos@) != f_zero(),      // (trapdoor 0: the negative powers do not exist - abort)
+    ensures
+        (res is Err) == (max_degree < 1),   // name=sonic_pc.setup.err_iff_degree_zero props=C09,C17
+        // KZG10 parameters in trapdoor form WITH the negative powers of beta in G2 that Sonic's degree-bound check pairs against
+        res is Ok ==> srs_wf(&res->Ok_0, max_degree as nat, true, draw(old(rng).id@, old(rng).pos@), draw(old(rng).id@, old(rng).pos@ + 1),
+                             draw(old(rng).id@, old(rng).pos@ + 2), draw(old(rng).id@, old(rng).pos@ + 3)),   // name=sonic_pc.setup.kzg10_parameters_with_g2_powers props=C09,C04
+//@body
+//@rw 1 /(kzg10::KZG10::<E, P>::setup\(max_degree, \w+, rng\))\.map_err\(Into::into\)/ => map_err_into(\1)
+//@rw 1 /fn setup<R: RngCore>\(\s*max_degree: usize,\s*_: Option<usize>,/ => fn setup<R: RngCore>(max_degree: usize, _nv: Option<usize>,
+//@end
+}
+
